@@ -4,6 +4,7 @@ package c04
 
 import (
 	"math"
+	"regexp"
 	"strconv"
 	"strings"
 	"testing"
@@ -179,6 +180,21 @@ func Check(c Case) (v vcase.Verdict) {
 				return
 			}
 		}
+		// regular-expression form, anchored on the written and on the base unit
+		if !strings.ContainsAny(unit, "/") {
+			for _, name := range []string{unit, base} {
+				flt, err := benchproc.NewFilter(".unit:/^" + regexp.QuoteMeta(name) + "$/")
+				if err != nil {
+					v.Failf("NewFilter(.unit:/^%s$/): %v", regexp.QuoteMeta(name), err)
+					return
+				}
+				cl := res.Clone()
+				if keep, _ := flt.Apply(cl); !keep || len(cl.Values) != 1 {
+					v.Failf("filter .unit:/^%s$/ on %v %s kept=%v values=%v", regexp.QuoteMeta(name), f, unit, keep, cl.Values)
+					return
+				}
+			}
+		}
 		flt, _ := benchproc.NewFilter(".unit:" + strconv.Quote(unit+"~"))
 		cl := res.Clone()
 		if keep, _ := flt.Apply(cl); keep {
@@ -322,6 +338,26 @@ func TestC04Grid(t *testing.T) {
 				}
 			}
 		}
+		// every numerator product of up to 6 ns/MB components (factors that cancel: 3 MB x 2 ns)
+		var rec func(prefix string, n int)
+		rec = func(prefix string, n int) {
+			if n > 0 {
+				units = append(units, prefix, prefix+"/op", "x-"+prefix)
+			}
+			if n == 6 {
+				return
+			}
+			for _, c := range []string{"ns", "MB"} {
+				for _, sep := range []string{"*", "-"} {
+					if n == 0 {
+						rec(c, 1)
+						break
+					}
+					rec(prefix+sep+c, n+1)
+				}
+			}
+		}
+		rec("", 0)
 		for _, u := range units {
 			if !yield(Case{Unit: u, Bits: vals}) {
 				return
